@@ -40,6 +40,7 @@ class Frame:
         self.this = this
         self.env = {}
         self.temps = []
+        self.locals = []         # named CountingPtr locals, destroyed where their scope ends
 
 
 class Ret(Exception):
@@ -322,8 +323,13 @@ class Interp:
             return
         k = s["k"]
         if k == "CompoundStmt":
-            for c in kids(s):
-                self.stmt(c, fr)
+            mark = len(fr.locals)
+            try:
+                for c in kids(s):
+                    self.stmt(c, fr)
+            finally:
+                while len(fr.locals) > mark:
+                    self.destroy_handle(fr.locals.pop(), fr)
             return
         if k == "IfStmt":
             c, t, e = kids(s)
@@ -356,7 +362,11 @@ class Interp:
         if k == "DeclStmt":
             for v in kids(s):
                 if kids(v):
-                    fr.env[v["did"]] = self.rval(kids(v)[0], fr)
+                    val = self.rval(kids(v)[0], fr)
+                    if isinstance(val, tuple) and val[0] == "handle" and val[1] in fr.temps and (v.get("ty") or "").startswith("tlx::CountingPtr<"):
+                        fr.temps.remove(val[1])          # a named handle lives to the end of its scope
+                        fr.locals.append(val[1])
+                    fr.env[v["did"]] = val
             self.flush_temps(fr)
             return
         self.rval(s, fr)
@@ -597,23 +607,40 @@ def check_refcounter(ck, tu):
         return e
     if len(rets) == 1 and len(rmws) == 1 and len(accesses) == 1:
         e = through_locals(kids(rets[0])[0])
-        b = match.binop(e, ("==",))
         node, (kind, order, amt) = rmws[0]
-        sides = None
-        if b:
-            l, r = through_locals(b[1]), through_locals(b[2])
-            if l is node:
-                sides = r
-            elif r is node:
-                sides = l
-        if sides is None or amt != 1 or const_int(sides) is None:
+
+        def evalx(x, X):
+            """the decision expression with the RMW's result replaced by the number X"""
+            x = through_locals(x)
+            if x is node:
+                return X
+            c_ = const_int(x)
+            if c_ is not None:
+                return c_
+            if x["k"] == "UnaryOperator" and x.get("op") == "!":
+                v_ = evalx(kids(x)[0], X)
+                return None if v_ is None else int(not v_)
+            bb = match.binop(x, ("==", "!=", "<", "<=", ">", ">="))
+            if bb:
+                l_, r_ = evalx(bb[1], X), evalx(bb[2], X)
+                if l_ is None or r_ is None:
+                    return None
+                return int({"==": l_ == r_, "!=": l_ != r_, "<": l_ < r_, "<=": l_ <= r_, ">": l_ > r_, ">=": l_ >= r_}[bb[0]])
+            return None
+        if amt != 1:
+            raise dtable.Undecidable("%s: the reference count is changed by %s" % (dec.loc, amt))
+        new_is_result = kind in ("operator--", "operator-=")
+        rows = [(X, evalx(e, X)) for X in ((0, 1, 2, 3) if new_is_result else (1, 2, 3, 4))]
+        if any(v_ is None for _, v_ in rows):
             raise dtable.Undecidable("%s: form of the release decision not understood: %s" % (dec.loc, dtable.describe(kids(rets[0])[0])))
-        if kind in ("operator--", "operator-=") and const_int(sides) == 0:
-            okd = True
-        elif kind in ("fetch_sub", "operator--(post)") and const_int(sides) == 1:
+        want_true = 0 if new_is_result else 1
+        wrong = [(X, v_) for X, v_ in rows if bool(v_) != (X == want_true)]
+        if not wrong:
             okd = True
         else:
-            why = "the result of %s is compared with %s" % (kind, const_int(sides))
+            X, v_ = wrong[0]
+            why = "when the %s count is %d the release decision is %s (the object must be released exactly when the new count is 0)" \
+                % ("new" if new_is_result else "previous", X, bool(v_))
         if okd and (order is None or order < 4):
             okd = False
             why = "decrement uses memory order %s, needs acq_rel or stronger" % ORDERS.get(order, "?")
